@@ -73,6 +73,10 @@ func c11StmtKits() map[string][]*ast.Node {
 		"compare-array-with-itself":     {set("c11a", ast.Arr(ast.Num("1"))), set("c11t", ast.Bin("==", ast.Id("c11a"), ast.Id("c11a")))},
 		"compare-object-with-its-alias": {set("c11o", ast.Obj(ast.KV("k", ast.Num("1")))), set("c11p", ast.Id("c11o")), set("c11t", ast.Bin("<=", ast.Id("c11o"), ast.Id("c11p")))},
 		"contains-own-container-element": {set("c11a", ast.Arr(ast.Arr(ast.Num("1")))), set("c11t", ast.Method(ast.Id("c11a"), "contains", ast.Idx(ast.Id("c11a"), ast.Num("0"))))},
+		// an index before the start of an array that is empty (read, store, ++)
+		"index-before-start-of-empty-array-read":  {set("c11a", ast.Arr()), set("c11t", ast.Idx(ast.Id("c11a"), ast.Un("-", ast.Num("1"))))},
+		"index-before-start-of-empty-array-store": {set("c11a", ast.Arr(ast.Num("1"))), set("c11t", ast.Method(ast.Id("c11a"), "pop")), ast.ExprS(ast.Set(ast.Idx(ast.Id("c11a"), ast.Un("-", ast.Num("1"))), ast.Num("1")))},
+		"index-before-start-of-empty-array-incr":  {set("c11a", ast.Arr()), ast.ExprS(ast.Post("++", ast.Idx(ast.Id("c11a"), ast.Un("-", ast.Num("2")))))},
 		"string-index-on-array": {set("c11a", ast.Arr()), ast.ExprS(ast.Set(ast.Idx(ast.Id("c11a"), ast.Str("x")), ast.Num("1")))},
 		"index-too-large":  {set("c11a", ast.Arr()), ast.ExprS(ast.Set(ast.Idx(ast.Id("c11a"), ast.Num("3000000")), ast.Num("1")))},
 		"forin-unset":      {ast.ForIn("c11e", "", ast.Id("c11unset"), ast.Block())},
